@@ -27,3 +27,6 @@ open Neutrino.BM
 #print axioms Neutrino.BM.C01_trans_getAncestorHeight
 #print axioms Neutrino.BM.C01_trans_getAncestorHeight_nonpos
 #print axioms Neutrino.BM.C01_trans_areHeadersConnected
+#print axioms C01_hash_resolves_iff_stored
+#print axioms C01_store_resolves_iff_on_chain
+#print axioms C01_memo_survives_rollback_counterexample
